@@ -241,8 +241,12 @@ def features(tree):
         fa = str(first.alias.parts[-1]).lower() if getattr(first, 'alias', None) is not None else (str(first.parts[-1]).lower() if type(first).__name__ == 'Identifier' else '?')
         quals = [str(o.field.parts[-2]).lower() if type(o.field).__name__ == 'Identifier' and len(o.field.parts) > 1 else '?' for o in tree.order_by]
         ob = 'first-table-only' if all(x == fa for x in quals) else 'other-tables-too'
+    # the one shape in which taking the first table's ORDER BY / LIMIT inside its fetch cannot change the result: every join keeps
+    # all rows of the first table (left joins only) and nothing filters afterwards
+    # (and no OFFSET: a left join may multiply rows, an offset counted on the table's rows is not one counted on the joined rows)
+    shape = 'left-joins-only-no-where-no-offset' if f['joins'] and f['joins'] <= {'LEFT JOIN', 'LEFT OUTER JOIN'} and not f['where'] and 'offset' not in f['clauses'] else 'other'
     return {'stmt': f['stmt'], 'joins': '+'.join(sorted(f['joins'])) or '-', 'clauses': '+'.join(sorted(f['clauses'])) or '-',
-            'where': '+'.join(sorted(f['where'])) or '-', 'order_by': ob}
+            'where': '+'.join(sorted(f['where'])) or '-', 'order_by': ob, 'limit_pushdown_shape': shape}
 
 
 def reduce_witness(text, ordered, kw, states, explained):
@@ -332,6 +336,9 @@ def run_shard(ctx):
         elif i % 40 == 21:
             text, ordered, feats = fedgen.subquery_in_on(r), False, {'subquery-in-on-clause'}
             acc.count('subquery_in_on_shapes')
+        elif i % 20 == 12:
+            text, ordered, feats = fedgen.not_over_comparison(r), False, {'not-over-comparison'}
+            acc.count('not_over_comparison_shapes')
         elif i % 20 == 1:
             text, ordered, feats = fedgen.join_chain(r), False, {'join-chain-same-named-keys'}
             acc.count('join_chain_shapes')
